@@ -367,14 +367,21 @@ def _hess(model: Model, H: RuleResult):
 
 
 def _key_lists(e) -> dict:
-    """{attribute self.<X>: key expression} for every comprehension over self.<X> inside expression e (`[id(p) for p in self.X]`)"""
+    """{attribute self.<X>: key expression} for every comprehension over self.<X> inside expression e (`[id(p) for p in self.X]`),
+    also through one outer comprehension over a literal tuple of such attributes (`tuple(tuple(id(p) for p in seq) for seq in (self.A, self.B))`)"""
     out = {}
     for c in ast.walk(e):
         if isinstance(c, (ast.ListComp, ast.GeneratorExp)) and len(c.generators) == 1:
             it = c.generators[0].iter
+            var = ast.unparse(c.generators[0].target)
             if isinstance(it, ast.Attribute) and isinstance(it.value, ast.Name):
-                var = ast.unparse(c.generators[0].target)
                 out[it.attr] = ast.unparse(c.elt).replace(var, "<elt>")
+            elif isinstance(it, (ast.Tuple, ast.List)) and it.elts and all(isinstance(x, ast.Attribute) and isinstance(x.value, ast.Name) for x in it.elts):
+                for inner in ast.walk(c.elt):
+                    if isinstance(inner, (ast.ListComp, ast.GeneratorExp)) and len(inner.generators) == 1 and ast.unparse(inner.generators[0].iter) == var:
+                        ivar = ast.unparse(inner.generators[0].target)
+                        for x in it.elts:
+                            out[x.attr] = ast.unparse(inner.elt).replace(ivar, "<elt>")
     return out
 
 
